@@ -76,6 +76,12 @@ def check_config(ctx: Ctx, dtype):
     n = rng.randint(m, m + 3)
     scale = rng.choice([Fr(1), Fr(1, 1000), Fr(1000)])
     J, d = m_unit(rng, m, n, scale=scale)
+    tiny = [i for i in range(m) if rng.random() < 0.15]
+    for i in tiny:
+        # a gradient of norm ~1e-13..1e-17 is still a direction: its cosine must come out like the others'
+        k = rng.choice([40, 50, 60]) if dtype == torch.float64 else rng.choice([40, 50])
+        J[i], d[i] = [v / 2 ** k for v in J[i]], d[i] / 2 ** k
+    ctx.count("config_tiny_rows", len(tiny))
     pref = rng.choice([None, [Fr(rng.randint(1, 8), 4) for _ in range(m)]])
     w = pref if pref is not None else [Fr(1)] * m
     rep = ask_agg(ctx.driver, "config", J, d=d, w=w)
@@ -91,9 +97,17 @@ def check_config(ctx: Ctx, dtype):
         ctx.count("config_skipped_ill_conditioned")
         return
     Jt = to_tensor(J, dtype)
-    A = ConFIG(pref_vector=None if pref is None else torch.tensor([float(v) for v in pref], dtype=dtype))
+    pt = None if pref is None else torch.tensor([float(v) for v in pref], dtype=dtype)
+    A = ConFIG(pref_vector=pt)
+    warm = rng.random() < 0.3
+    if warm:
+        # the instance has been used before (on a matrix with all-zero rows): the statement is about every call
+        Z = Jt.clone()
+        Z[rng.randrange(m):] = 0
+        run_agg(A, Z)
+        ctx.count("config_reused_instance")
     st, x = run_agg(A, Jt)
-    rp = {"aggregator": "ConFIG", "J": [[str(v) for v in r] for r in J], "pref": None if pref is None else [str(v) for v in pref],
+    rp = {"aggregator": "ConFIG", "instance_called_before_on_zero_rows": warm, "J": [[str(v) for v in r] for r in J], "pref": None if pref is None else [str(v) for v in pref],
           "dtype": str(dtype)}
     if st != "ok":
         ctx.violation(f"ConFIG raised {x}", rp)
@@ -102,6 +116,9 @@ def check_config(ctx: Ctx, dtype):
     tol = Fr(C_TOL * uu * kappa * m * n) * max(maxabs(xm), Fr(1, 10 ** 30))
     ctx.count("config_compared")
     ctx.count("config_pref", "default" if pref is None else "given")
+    if pt is not None and not torch.equal(pt, torch.tensor([float(v) for v in pref], dtype=dtype)):
+        ctx.violation(f"ConFIG modified the preference vector it was given: {pref} became {pt.tolist()}", rp)
+        return
     if maxdiff(xs, xm) > tol:
         ctx.violation(f"ConFIG(pref={pref}) = {[float(v) for v in xs]} differs from the exact conflict-free vector "
                       f"{[float(v) for v in xm]} (tolerance {float(tol):.3e})", rp)
